@@ -22,6 +22,9 @@ func ResetOnces() {
 	for _, o := range onces {
 		o.done, o.running, o.real = false, false, gosync.Once{}
 	}
+	for _, p := range pools {
+		p.items = nil
+	}
 }
 
 type Once struct {
@@ -147,7 +150,67 @@ func (m *RWMutex) RUnlock() {
 // generator that starts using them gets real semantics without scheduling points, reported by the instrumenter).
 type WaitGroup = gosync.WaitGroup
 type Map = gosync.Map
-type Pool = gosync.Pool
 type Locker = gosync.Locker
 
 func OnceFunc(f func()) func() { return gosync.OnceFunc(f) }
+
+// Pool is a deterministic stand-in for sync.Pool: a LIFO free list shared by all threads (the real pool may hand any
+// thread any item or none; handing the most recently returned item to whoever asks next is one of its behaviours and the
+// one that makes reuse visible). Get and Put are scheduling points. Pools are emptied by ResetOnces, so that every explored
+// execution and every history starts with cold pools.
+type Pool struct {
+	New        func() any
+	registered bool
+	items      []any
+	real       gosync.Mutex
+}
+
+var pools []*Pool
+
+func (p *Pool) register() {
+	if !p.registered {
+		regMu.Lock()
+		p.registered = true
+		pools = append(pools, p)
+		regMu.Unlock()
+	}
+}
+
+func (p *Pool) Get() any {
+	p.register()
+	if vsched.Active() {
+		vsched.SyncPoint(fmt.Sprintf("pool:%p", p))
+	}
+	p.real.Lock()
+	var x any
+	if n := len(p.items); n > 0 {
+		x, p.items = p.items[n-1], p.items[:n-1]
+	}
+	p.real.Unlock()
+	if x == nil && p.New != nil {
+		x = p.New()
+	}
+	return x
+}
+
+func (p *Pool) Put(x any) {
+	if x == nil {
+		return
+	}
+	p.register()
+	if vsched.Active() {
+		vsched.SyncPoint(fmt.Sprintf("pool:%p", p))
+	}
+	p.real.Lock()
+	p.items = append(p.items, x)
+	p.real.Unlock()
+}
+
+// ResetPools empties every pool created so far.
+func ResetPools() {
+	regMu.Lock()
+	defer regMu.Unlock()
+	for _, p := range pools {
+		p.items = nil
+	}
+}
